@@ -16,7 +16,7 @@ import shutil
 
 from lib import (Session, TT, check_invariants, reachable, SECTIONS_L3, WORK)
 from funcs import Space, Builder
-from checks_core import canon_problems
+from checks_core import canon_problems, order_views_ok
 import impl as implmod
 
 _bdd = implmod._bdd
@@ -482,6 +482,12 @@ class Scenario:
         if ans.startswith('err'):
             if expect_refusal:
                 ctx.count('refused')
+                # a refused load: the order is still a bijection onto 0..n-1 and the counts
+                # are exact for the ledger the caller had (nothing is held for a result)
+                bad = order_views_ok(b) + check_invariants(b, dict(s.ledger.get(mid, {})))
+                if bad:
+                    ctx.violation(what + ' (refused)', dict(problems=bad[:4], got=ans,
+                                  lines=list(s.lines[-3:]), **self.tag_base, tags=dict(tags)))
                 return None
             problems.append(f'load raised: {ans}')
         else:
@@ -795,6 +801,86 @@ def refused_files(ctx):
     s.close()
 
 
+def witness_failed_loads(ctx):
+    """The two inputs of findings F16 / F17 (fixed), on every run:
+    F16  `declare('q'); load(pickle{vars: x:2, y:0, w:1}, levels=True)` raised `ValueError` half-way
+         and left `vars={'q':0,'x':2}` — a gap, the next `var('x')` raised;
+    F17  `autoref.BDD().load(json with a dangling child)` raised `KeyError` and left the `incref`
+         of `_make_node` behind (`_ref={1:3, 2:1}` with no live `Function`)."""
+    s = Session(ctx)
+    # F16
+    s.new(0, ['q'])
+    before = s.state(0)
+    d = dict(vars={'x': 2, 'y': 0, 'w': 1}, succ={1: (3, None, None), 2: (2, -1, 1)}, roots=[2])
+    fh, path = _new_file(s.impl, '.p')
+    with open(path, 'wb') as f:
+        pickle.dump(d, f, protocol=2)
+    fields = pickle_fields(read_pickle(path), False)
+    ans = s.op(0, 'pload', fh, 1, *fields)
+    ctx.evaluations += 1
+    b = s.mgr(0)
+    bad = order_views_ok(b) + check_invariants(b, {})
+    if not ans.startswith('err'):
+        bad.append(f'accepted: {ans}')
+    if dict(b.vars) != {'q': 0}:
+        bad.append(f'variables declared by a refused load: {dict(b.vars)}')
+    if s.state(0) != before:
+        bad.append('the refused load changed the manager')
+    a2 = s.op(0, 'add_var', 'x')
+    if not a2.startswith('ok'):
+        bad.append(f'declaring x afterwards: {a2}')
+    if bad:
+        ctx.violation('F16 witness: refused load(levels=True)', dict(
+            problems=bad[:4], got=ans, tags=dict(call='load-rejected', what='F16')))
+    ctx.case(('witness', 'F16'))
+    # F16, second part: the file's own levels are not a permutation of 0..n-1 (out of range /
+    # repeated): refused before anything is declared, also in a fresh manager
+    for k, vars_ in enumerate(({'a': 1, 'b': 5}, {'a': 1, 'b': 1})):
+        mid = 2 + k
+        s.new(mid, [])
+        d = dict(vars=vars_, succ={1: (2, None, None)}, roots=[1])
+        fh, path = _new_file(s.impl, '.p')
+        with open(path, 'wb') as f:
+            pickle.dump(d, f, protocol=2)
+        fields = pickle_fields(read_pickle(path), False)
+        ans = s.op(mid, 'pload', fh, 1, *fields)
+        ctx.evaluations += 1
+        b = s.mgr(mid)
+        bad = order_views_ok(b) + check_invariants(b, {})
+        if not ans.startswith('err'):
+            bad.append(f'accepted: {ans}')
+        if dict(b.vars):
+            bad.append(f'variables declared by a refused load: {dict(b.vars)}')
+        s.state(mid)
+        if bad:
+            ctx.violation('F16 witness: file levels not a permutation', dict(
+                problems=bad[:4], got=ans, tags=dict(call='load-rejected', what='F16b')))
+        ctx.case(('witness', 'F16b', k))
+    # F17
+    s.new(9, [])
+    fh, path = _new_file(s.impl, '.json')
+    with open(path, 'w') as f:
+        f.write('{\n"level_of_var": {"x": 0, "y": 1},\n"roots": [3],\n'
+                '"2": [1, "F", "T"],\n"3": [0, "F", 7]\n}\n')
+    fields = json_fields(read_json(path), False)
+    ans = s.op(9, 'jload', fh, 'w1', 0, *fields)
+    ctx.evaluations += 1
+    b = s.mgr(9)
+    bad = order_views_ok(b) + check_invariants(b, {})
+    if not ans.startswith('err'):
+        bad.append(f'accepted: {ans}')
+    s.op(9, 'gc')
+    if set(b._succ) != {1}:
+        bad.append(f'nodes survive a collection although nothing is held: {sorted(b._succ)}')
+    s.state(9)
+    if bad:
+        ctx.violation('F17 witness: failed load_json', dict(
+            problems=bad[:4], got=ans, tags=dict(call='load-rejected', what='F17')))
+    ctx.case(('witness', 'F17'))
+    ctx.add_session(s, SECTIONS_L3, 'C12/C17 witnesses F16 F17')
+    s.close()
+
+
 def rejected_content(ctx):
     """C17 `load_rejected`: a readable file whose content is ill-formed (a child that is not in
     the file, a root that is not in the file, a level outside the file's range) makes the loader
@@ -919,7 +1005,9 @@ def rejected_content(ctx):
         problems = []
         if not ans.startswith('err'):
             problems.append(f'ill-formed content accepted: {ans}')
-        problems += check_invariants(b)
+        # order views (bijection onto 0..n-1, the four views agree) and EXACT counts for the
+        # caller's ledger: a failed load holds nothing
+        problems += order_views_ok(b) + check_invariants(b, dict(s.ledger.get(mid, {})))
         for u, t in old_succ.items():
             if u != 1 and b._succ.get(u) != t:
                 problems.append(f'node {u} was {t}, is {b._succ.get(u)}')
@@ -1035,6 +1123,7 @@ def check_C12(ctx):
         run_scenario(ctx, abc, [('a', 0), ('b', 1), ('c', 2)], [0b11111111, 0b10001000], True, [1, -1],
                      ['fresh', 'same'], with_none=False)
         witness_json_reordering_flag(ctx)
+        witness_failed_loads(ctx)
         for _ in range(2 if ctx.tier == 'quick' else 25):
             rejected_content(ctx)
         n = 0
